@@ -87,3 +87,45 @@ PROPS["C02"] = {
     "level_text": "Kernel-checked theorem cert_sound: if the certificate checker accepts the node domains computed by the C++ for a box (each node domain contains the model's tightest operator applied to the C++ domains of its arguments) then for EVERY real point of the box every node value (in particular the function value) lies in its domain - for all DAGs of any size and sharing, with vector/matrix operators, indexing and applied functions; run_encl is the same statement for the model's own evaluator. The check runs the certificate on every evaluation and, independently, evaluates the user-level expression exactly (rationals) at sample points; component evaluations are checked against the exact components.",
     "level_note": "Trusted: Lean kernel + Mathlib (axioms propext/Classical.choice/Quot.sound); harness dumper + driver glue; correspondence sampled. Two genuine defects found and fixed (index of a transposed vector; DimException in component functions).",
 }
+
+
+
+def _c18_nontrivial(line, verdict):
+    # a case counts as non-trivial unless the real reader stopped on a resource limit (model not run)
+    return "resource-limit" not in verdict
+
+PROPS["C18"] = {
+    "modules": ["IbexProofs.Props.C18"],
+    "harnesses": ["h_cov"],
+    "workloads": lambda tier, seed: [
+        # random objects of the 7 classes: save, bytes vs model, reload, cross-class loads, trailing bytes
+        {"harness": "h_cov", "tag": "save", "args": ["save", seed, 280 if tier == "quick" else 4000] + (["full"] if tier == "thorough" else [])},
+        # small objects: every truncation, every single-field corruption, byte flips, other-class readers
+        {"harness": "h_cov", "tag": "corrupt", "args": ["corrupt", seed, 28 if tier == "quick" else 210] + (["full"] if tier == "thorough" else [])},
+    ],
+    "nontrivial": _c18_nontrivial,
+    "rule": "save: random contents built through the API of Cov, CovList, CovIUList, CovIBUList, CovManifold, CovSolverData, "
+            "CovOptimData (n=1..5, 0..60 boxes, all statuses/boundary types/varsets/names, infinite, degenerate, huge, -0, empty "
+            "bounds), bytes of save() decoded by the model and compared with the object, content checked WF, reloaded by the real "
+            "constructor (must be identical), loaded by the constructor of every other class, with trailing bytes; corrupt: for "
+            "small objects every truncation, every u32/f64/char field replaced by 0,1,2,max,+-1,+2,sign flip,byte swap..., random "
+            "byte flips: the real reader and the model must reject the same files and load the same content otherwise; every "
+            "load runs in a forked child (crash = finding); distinct = distinct lines, non-trivial = not stopped by the 256 MB limit",
+    "assumptions": ["correspondence is sampled: the real writer/reader agree with encode/decode on every generated file",
+                    "the reader of class k is modelled at the level of the file contents it returns through the public accessors "
+                    "(statuses per box, index lists, varsets, names, scalars); object internals are not modelled",
+                    "files for which the real reader exceeds 256 MB / 20000 boxes (corrupted counts with dimension 0) are not compared"],
+    "trusted": ["g++/x86-64 little-endian layout of uint32_t/double (the model fixes little endian)",
+                "harness h_cov: accessor-based dump of an object, OptAccess subclass to fill the protected CovOptimData::Data"],
+    "technique": "Lean 4 proof of the codec (decode (encode v) = v for well-formed v; every accepted byte string is the canonical "
+                 "encoding of what it loads as; truncations rejected) + differential correspondence `=` of the real save()/constructors "
+                 "with encode/decode on generated and corrupted files",
+    "level_text": "Kernel-checked, no size bound: for the 7 COV classes decode_k(encode v ++ rest) = (v, rest) for every well-formed "
+                  "content v (WF decidable, checked on every object the harness builds); decode_k bs = (v, rest) implies "
+                  "bs = encode v ++ rest for EVERY byte string (so a corrupted file is rejected or is the canonical file of the other "
+                  "content it loads as; a same-length corruption is never loaded as the original; every truncation is rejected). "
+                  "Correspondence: bytes written by the real save() and objects loaded by the real constructors equal the model on all "
+                  "generated files, truncations, single-field corruptions and byte flips.",
+    "level_note": "Trusted: Lean kernel, axioms propext/Quot.sound (Classical.choice where simp uses it); harness, line protocol, driver "
+                  "glue; correspondence is sampled. Deviations of /repo from its own format are reported by the check (see findings).",
+}
